@@ -2176,6 +2176,10 @@ def isParsingError (r : Except Err RawTg) : Bool :=
 def badLong : Tg Nat := ⟨[.I ⟨"a", [⟨0, 1, "item ["⟩], 0, 1⟩], some 0, some 1⟩
 
 theorem badLong_parse : isParsingError (Rd.parseLong (Txt.ofString (tgToLong numN badLong 0 1))) = true := by
+  have hfile : Txt.ofString (tgToLong numN badLong 0 1) = (fileLong numN badLong 0 1).toArray := by
+    unfold Txt.ofString; rw [emitLong_toList]
+  -- the reader restated on lists (`Rd.parseLong_eq`), evaluated on the list-level text
+  rw [hfile, parseLong_eq, List.toList_toArray]
   decide +kernel
 
 /-- **the keyword hypothesis `NoKwLong` is needed (A10, long format)**: the one-tier textgrid whose only label is `item [`
@@ -2214,6 +2218,10 @@ theorem parseLong_keyword_counterexample :
 does not match: `ParsingError` -/
 theorem parseLong_name_newline_counterexample :
     isParsingError (Rd.parseLong (Txt.ofString (tgToLong numN ⟨[.P ⟨"a\nb", [], 0, 1⟩], some 0, some 1⟩ 0 1))) = true := by
+  have hfile : Txt.ofString (tgToLong numN ⟨[.P ⟨"a\nb", [], 0, 1⟩], some 0, some 1⟩ 0 1) =
+      (fileLong numN ⟨[.P ⟨"a\nb", [], 0, 1⟩], some 0, some 1⟩ 0 1).toArray := by
+    unfold Txt.ofString; rw [emitLong_toList]
+  rw [hfile, parseLong_eq, List.toList_toArray]
   decide +kernel
 
 /-! ## through the format sniffing of `parseTextgridStr` (non-JSON path) -/
